@@ -29,6 +29,7 @@ type Config struct {
 	Params          map[string]int
 	SampleModels    int
 	Seed            int
+	Redirects       map[string]*ssa.Function // callee full name -> replacement (environment model in the harness)
 	Concrete        map[string]InputValue // non-nil: concrete mode (inputs fixed, real SHA-256)
 	bhCache         sync.Map
 }
